@@ -69,6 +69,7 @@ class Analysis:
   def __init__(self):
     self.primitives = {}       # name -> count, on input-dependent paths
     self.all_primitives = {}   # name -> count, everywhere
+    self.kinks = {}            # primitive -> count of first-hand non-polynomial applications (polynomial operands)
     self.notes = []
 
   # ---------------------------------------------------------------------------------------
@@ -135,6 +136,9 @@ class Analysis:
       return [AV(deg=NONPOLY, nz=None, dep=dep, why=f'{name} (control flow)') for _ in range(nout)]
 
     deg, why = self._degree(name, eqn, ins)
+    if deg is NONPOLY and not any(a.deg is NONPOLY for a in ins):
+      # first-hand source of non-polynomiality (operands polynomial, result not): a potential kink / singularity
+      self.kinks[name] = self.kinks.get(name, 0) + 1
     nz = self._nz(name, eqn, ins)
     outs = []
     for i in range(nout):
